@@ -763,6 +763,19 @@ impl Oracle {
                 );
             }
             None => {
+                // C05 S3: a PUBREL that belongs to an exchange of a session the broker has replaced
+                if let Some(old) = self
+                    .reqs
+                    .iter()
+                    .find(|r| r.kind == ReqKind::Pub2 && r.pid == Some(pid) && r.epoch != epoch && r.pubrec_ok.is_some() && !r.done)
+                {
+                    self.flag(
+                        "C05",
+                        "S3-stale-after-fresh",
+                        "pubrel",
+                        format!("PUBREL for request {} of session epoch {} sent in epoch {}", old.seq, old.epoch, epoch),
+                    );
+                }
                 // A PUBREL for an exchange that ended (PUBCOMP consumed, failing PUBREC, fresh session)
                 self.flag(
                     "C03",
